@@ -1,5 +1,8 @@
 // search.go: failing-input search legs of hx_c13 (active only with -search).
 //
+// The legs that run in the NORMAL tiers (key / value types, re-entrant callbacks, word-size arguments, held listings) are
+// in legs3.go, with an oracle stated over the event stream.
+//
 // The normal tiers run short histories over six keys. The legs below reach what those cannot:
 //
 //	collide  keys whose 32-bit hashes collide or share their low/high 16 bits (brute-forced over decimal strings for a
@@ -774,7 +777,11 @@ func legCollide(r *hxlib.Run) {
 		}
 	}
 	// int keys (Put/Get/Peek/Contains take any comparable key): equal modulo 2^16 / 2^32, multiples of 2^32
-	for _, d := range []int{1 << 16, 1 << 31, 1 << 32, 3 << 32, 1 << 48} {
+	for _, d64 := range []int64{1 << 16, 1 << 31, 1 << 32, 3 << 32, 1 << 48} {
+		d := int(d64)
+		if int64(d) != d64 || d > (1<<(strconv.IntSize-1)-1)/4 {
+			continue // does not fit the platform's int (GOARCH=386)
+		}
 		for _, base := range []int{0, 1, 12345} {
 			c := scase{Leg: "collide-int", N: d, Cap: base}
 			r.Case()
